@@ -1,7 +1,7 @@
 """C01 — the audio callback is real-time safe and its output is well-formed."""
 from ..enginea import run_engine_a
 
-TEXT = ("Static effect analysis (rustc MIR, monomorphic call graph with virtual fan-out and drop glue) of everything reachable from Renderer::on_start_processing / Renderer::process: no heap allocation, no deallocation, no blocking or unclassified OS-facing leaf, every may-panic site and every loop discharged by an auto rule or an exact, reasoned table entry. Decides reachability of effects, not sample values (overflow to infinity through huge finite magnitudes is not decided). Every float operation on the audio path that can turn finite operands into NaN or infinity (division, remainder, square root, logarithm, power, exp, a normalising glam call) is an obligation discharged by interval evaluation under the dominating branch facts or by an exact, reasoned table entry (A.singular). The discharges of the reverb's / delay's initialisation panics rest on the creation sites initialising their effects, that of the clock's state panic on Clock::update starting the clock itself. A power site raises one obligation per domain condition (base, exponent); the easing's base condition rests on its callers keeping the argument in 0..1, checked on every run. An index that is the item of a Range ending at the length of the very slice indexed is in bounds (auto-discharged).")
+TEXT = ("Static effect analysis (rustc MIR, monomorphic call graph with virtual fan-out and drop glue) of everything reachable from Renderer::on_start_processing / Renderer::process: no heap allocation, no deallocation, no blocking or unclassified OS-facing leaf, every may-panic site and every loop discharged by an auto rule or an exact, reasoned table entry. Decides reachability of effects, not sample values (overflow to infinity through huge finite magnitudes is not decided). Every float operation on the audio path that can turn finite operands into NaN or infinity (division, remainder, square root, logarithm, power, exp, a normalising glam call) is an obligation discharged by interval evaluation under the dominating branch facts or by an exact, reasoned table entry (A.singular). The discharges of the reverb's / delay's initialisation panics rest on the creation sites initialising their effects, that of the clock's state panic on Clock::update starting the clock itself. A power site raises one obligation per domain condition (base, exponent); the easing's base condition rests on its callers keeping the argument in 0..1, checked on every run. An index that is the item of a Range ending at the length of the very slice indexed is in bounds (auto-discharged). The overflow-checks configuration (every arithmetic assert of the audio path) is analysed on every run.")
 TECHNIQUE = 'MIR call-graph effect analysis (alloc/free/block/panic/loop) with exact discharge table + interval evaluation of singular float operations'
 
 
